@@ -406,6 +406,18 @@ def into_iter(I, v):
         return list(range(lo, hi + (1 if v.inclusive else 0)))
     if isinstance(v, Enum) and v.ty == "Option":
         return list(v.fields)
+    if isinstance(v, Obj):
+        # a repo type implementing Iterator: drive its `next`
+        out = []
+        for _ in range(65):
+            r = I.try_repo_method(v, "next", [])
+            if r is NotImplemented:
+                break
+            if isinstance(r, Enum) and r.variant == "None":
+                return out
+            out.append(r.fields[0])
+        else:
+            raise Unsupported("iterator of %s does not end within 64 items" % v.ty)
     raise Unsupported("iterate %s" % type(v).__name__)
 
 
@@ -637,6 +649,17 @@ def is_rust_ws(c):
 
 
 def method(I, recv, name, args, e, env):
+    if name in ("borrow", "borrow_mut") and not args and I.track_borrows:
+        I.b_borrow(recv, "mut" if name == "borrow_mut" else "shared")
+        return recv
+    if name == "try_into" and not args and isinstance(recv, (Obj, Enum)) and getattr(recv, "ty", None) not in ("Option", "Result"):
+        # value.try_into(): the one `impl TryFrom<Type> for ..` of the dump
+        cands = []
+        for (f, sty, nm), fns in I.dump.methods.items():
+            if nm == "try_from":
+                cands += [(f, fn) for fn in fns if (fn.get("trait") or "").replace(" ", "").endswith("TryFrom<%s>" % recv.ty)]
+        if len(cands) == 1:
+            return I.call_fn(cands[0][0], cands[0][1], [recv])
     ms = getattr(I, "mstubs", None)
     if ms:
         key = (getattr(recv, "ty", type(recv).__name__), name)
@@ -737,6 +760,13 @@ def method(I, recv, name, args, e, env):
             return Iter([I.call_closure(args[0], [x]) for x in items])
         if name == "filter":
             return Iter([x for x in items if I.truth(I.call_closure(args[0], [x]))])
+        if name == "filter_map":
+            out = []
+            for x in items:
+                r = I.call_closure(args[0], [x])
+                if isinstance(r, Enum) and r.variant == "Some":
+                    out.append(r.fields[0])
+            return Iter(out)
         if name == "enumerate":
             return Iter([(k, x) for k, x in enumerate(items)])
         if name == "rev":
